@@ -689,7 +689,7 @@ Section IntKernels.
   Definition ki_floor_divide := K2 SZ SZ SZ (ke_floor_divide sb) (jax_floor_divide sb) (fun x y => zin2 x y && div_domb sb x y).
   Definition ki_fmod := K2 SZ SZ SZ (ke_rem sb) (jax_fmod sb) (fun x y => zin2 x y && negb (y =? 0)).   (* jnp.fmod's plugin: no zero guard *)
   Definition ki_clip_op := K3 SZ SZ SZ SZ ke_clip_op jax_clip tt3.
-  Definition ki_relu := K1 SZ SZ ke_relu jax_relu tt1.
+  Definition ki_relu := K1 SZ SZ (ke_relu sb) jax_relu (in_intb sb).
   Definition ki_max := K2 SZ SZ SZ ke_max jax_max zin2.
   Definition ki_min := K2 SZ SZ SZ ke_min jax_min zin2.
   Definition ki_clamp := K3 SZ SZ SZ SZ ke_clamp_p (fun lo x hi => jax_clamp x lo hi) tt3.
@@ -768,7 +768,14 @@ Section IntKernels.
   Lemma ki_clip_op_ok : kern_ok ki_clip_op.
   Proof. apply (K3_ok SZ SZ SZ SZ ke_clip_op lowered_clip_op); try kuses_tac; try root_tac; try solve [kok_tac]; try reflexivity; try (intros; apply clip_op_correct). Qed.
   Lemma ki_relu_ok : kern_ok ki_relu.
-  Proof. apply (K1_ok SZ SZ ke_relu lowered_relu); try kuses_tac; try root_tac; try solve [kok_tac]; try reflexivity; try (intros; apply relu_correct). Qed.
+  Proof.
+    apply (K1_ok SZ SZ (ke_relu sb) (lowered_relu sb)).
+    - unfold is_root_op, ke_relu. destruct (is_signed sb); exact I.
+    - unfold ke_relu. destruct (is_signed sb); cbn; repeat split; auto; lia.
+    - unfold ke_relu. destruct (is_signed sb); cbn; tauto.
+    - intro x. apply ke_relu_sound.
+    - intros x H. apply in_intb_spec in H. now apply relu_correct.
+  Qed.
   Lemma ki_max_ok : kern_ok ki_max. Proof. apply (K2_ok SZ SZ SZ ke_max lowered_max); try kuses_tac; try root_tac; try solve [kok_tac]; try reflexivity; try (intros; apply max_correct). Qed.
   Lemma ki_min_ok : kern_ok ki_min. Proof. apply (K2_ok SZ SZ SZ ke_min lowered_min); try kuses_tac; try root_tac; try solve [kok_tac]; try reflexivity; try (intros; apply min_correct). Qed.
   Lemma ki_clamp_ok : kern_ok ki_clamp.
@@ -885,7 +892,7 @@ Definition int_entries (nm : string) (sb : ity) : list (string * kern) :=
   [("add:" ++ nm, ki_add sb); ("sub:" ++ nm, ki_sub sb); ("mul:" ++ nm, ki_mul sb); ("neg:" ++ nm, ki_neg sb);
    ("sign:" ++ nm, ki_sign sb); ("div:" ++ nm, ki_div sb); ("rem:" ++ nm, ki_rem sb); ("max:" ++ nm, ki_max sb);
    ("min:" ++ nm, ki_min sb); ("floor_divide:" ++ nm, ki_floor_divide sb); ("fmod:" ++ nm, ki_fmod sb);
-   ("clip_op:" ++ nm, ki_clip_op); ("relu:" ++ nm, ki_relu); ("clamp:" ++ nm, ki_clamp); ("clip:" ++ nm, ki_clip); ("select_n:" ++ nm, ki_select_n);
+   ("clip_op:" ++ nm, ki_clip_op); ("relu:" ++ nm, ki_relu sb); ("clamp:" ++ nm, ki_clamp); ("clip:" ++ nm, ki_clip); ("select_n:" ++ nm, ki_select_n);
    ("where:" ++ nm, ki_where); ("and:" ++ nm, ki_and sb); ("or:" ++ nm, ki_or sb); ("xor:" ++ nm, ki_xor sb);
    ("not:" ++ nm, ki_not sb); ("shift_left:" ++ nm, ki_shl sb); ("shift_right_logical:" ++ nm, ki_srl sb);
    ("shift_right_arithmetic:" ++ nm, ki_sra sb); ("eq:" ++ nm, ki_eq); ("ne:" ++ nm, ki_ne); ("lt:" ++ nm, ki_lt);
